@@ -199,6 +199,7 @@ func checkC11(w *World, r *Report) {
 	c11AnswerRemove(w, r, q)
 	c11StableKey(w, r, q)
 	c11NoBlock(w, r, q)
+	c05Batching(w, r, "C11.f", "f-announced-index-not-ahead")
 }
 
 func c11Forwarding(w *World, r *Report, q *queueA) {
@@ -360,6 +361,35 @@ func c11Notify(w *World, r *Report, q *queueA) {
 				ob.Violate("callback-field-writer@"+FnName(fn), in.Pos(), "the state machine's applied callback is written outside its factory")
 			}
 		})
+	}
+	// every state machine the manager starts is given a callback that reaches the listener
+	if newFn := w.Func(fsmRel, "New"); newFn != nil {
+		for _, ci := range w.CallersOf(newFn) {
+			if !strings.HasSuffix(FnName(ci.Parent()), "startTable") && !strings.Contains(FnName(ci.Parent()), "startTable$") {
+				continue
+			}
+			args := ci.Common().Args
+			cb := args[len(args)-1]
+			ob.Site(ci.Pos(), "state machine factory called in "+FnName(ci.Parent())+" with callback "+Expr(cb))
+			reaches := false
+			for _, f := range funcsOfValue(cb, 0) {
+				{
+					for _, g := range withClosures(f) {
+						eachInstr(g, func(x ssa.Instruction) {
+							if fa, ok := x.(*ssa.FieldAddr); ok && fieldAddrName(fa) == "AppliedIndexListener" {
+								reaches = true
+							}
+							if fv, ok := x.(*ssa.Field); ok && fieldValName(fv) == "AppliedIndexListener" {
+								reaches = true
+							}
+						})
+					}
+				}
+			}
+			if !reaches {
+				ob.Violate("factory-without-listener@"+FnName(ci.Parent()), ci.Pos(), "a table's state machine is started with the callback `"+Expr(cb)+"`, which does not reach the configured applied-index listener: writes forwarded to that table are applied but their waiters are never released")
+			}
+		}
 	}
 	// readers of AppliedIndexListener
 	nread := 0
@@ -866,4 +896,48 @@ func c11NoBlock(w *World, r *Report, q *queueA) {
 		}
 	})
 	ob.NeedFloor(5)
+}
+
+// funcsOfValue: the functions a function-typed value may be: a closure literal, a function, or
+// what a (statically resolved or literal) callee returns.
+func funcsOfValue(v ssa.Value, depth int) []*ssa.Function {
+	if depth > 4 {
+		return nil
+	}
+	switch x := v.(type) {
+	case *ssa.MakeClosure:
+		if f, ok := x.Fn.(*ssa.Function); ok {
+			return []*ssa.Function{f}
+		}
+	case *ssa.Function:
+		return []*ssa.Function{x}
+	case *ssa.ChangeType:
+		return funcsOfValue(x.X, depth+1)
+	case *ssa.Phi:
+		var out []*ssa.Function
+		for _, e := range x.Edges {
+			out = append(out, funcsOfValue(e, depth+1)...)
+		}
+		return out
+	case *ssa.Call:
+		var callees []*ssa.Function
+		if cal := StaticCallee(&x.Call); cal != nil {
+			callees = append(callees, cal)
+		} else {
+			callees = funcsOfValue(x.Call.Value, depth+1)
+		}
+		var out []*ssa.Function
+		for _, cal := range callees {
+			if cal.Blocks == nil {
+				continue
+			}
+			eachInstr(cal, func(in ssa.Instruction) {
+				if ret, ok := in.(*ssa.Return); ok && len(ret.Results) > 0 {
+					out = append(out, funcsOfValue(retVal(ret, 0), depth+1)...)
+				}
+			})
+		}
+		return out
+	}
+	return nil
 }
